@@ -139,8 +139,7 @@ where
     }
 }
 
-fn oracle(case: &Case) -> Report {
-    let mut rep = Report::new();
+pub fn xls_doc(case: &Case) -> b8::XlsDoc {
     let name_rgce8 = |k: usize| {
         let mut v = vec![0x3A];
         v.extend((k as u16).to_le_bytes());
@@ -148,8 +147,7 @@ fn oracle(case: &Case) -> Report {
         v.extend(0u16.to_le_bytes());
         v
     };
-    // ---- xls
-    if !case.wide {
+    {
         let mut cells: Vec<b8::BCell> = case.formulas.iter().map(|(p, e)| b8::BCell { row: p.0 as u16, col: p.1 as u16, ixfe: 0, rec: b8::BRec::Formula { value: b8::FVal::Num(0.0), rgce: rgce(e, Biff::B8, case.class_knob) } }).collect();
         cells.extend(case.consts.iter().map(|p| b8::BCell { row: p.0 as u16, col: p.1 as u16, ixfe: 0, rec: b8::BRec::Number(7.0) }));
         cells.sort_by_key(|c| (c.row, c.col));
@@ -162,6 +160,70 @@ fn oracle(case: &Case) -> Report {
             cfb: case.cfb.clone(),
             ..Default::default()
         };
+        doc
+    }
+}
+
+pub fn xlsb_doc(case: &Case) -> bb::XlsbDoc {
+let mut rows: BTreeMap<u32, Vec<bb::BbCell>> = BTreeMap::new();
+    for (p, e) in &case.formulas {
+        rows.entry(p.0).or_default().push(bb::BbCell { col: p.1, style: 0, rec: bb::BbRec::FmlaNum(0.0, rgce(e, Biff::B12, case.class_knob)) });
+    }
+    for p in &case.consts {
+        rows.entry(p.0).or_default().push(bb::BbCell { col: p.1, style: 0, rec: bb::BbRec::Real(7.0) });
+    }
+    let rows = rows
+        .into_iter()
+        .map(|(r, mut cells)| {
+            cells.sort_by_key(|c| c.col);
+            bb::BbRow { r, before: vec![], cells }
+        })
+        .collect();
+    let other = |n: &str| bb::BbSheet { name: n.into(), rows: vec![bb::BbRow { r: 0, before: vec![], cells: vec![bb::BbCell { col: 0, style: 0, rec: bb::BbRec::Real(1.0) }] }], ..Default::default() };
+    let name_rgce12 = |k: usize| {
+        let mut v = vec![0x3A];
+        v.extend((k as u16).to_le_bytes());
+        v.extend(0u32.to_le_bytes());
+        v.extend(0u16.to_le_bytes());
+        v
+    };
+    let doc = bb::XlsbDoc {
+        sheets: vec![bb::BbSheet { name: "Main".into(), rows, ..Default::default() }, other("Data"), other("Other"), other("S3")],
+        names: NAMES.iter().enumerate().map(|(k, n)| (n.to_string(), name_rgce12(k))).collect(),
+        xtis: vec![(3, 3), (2, 2), (1, 1), (0, 0)],
+        ..Default::default()
+    };
+    doc
+}
+
+pub fn xlsx_doc(case: &Case) -> xx::XlsxDoc {
+let mut rows: BTreeMap<u32, Vec<xx::XCell>> = BTreeMap::new();
+    for (p, e) in &case.formulas {
+        rows.entry(p.0).or_default().push(xx::XCell { col: p.1, explicit: true, style: None, value: xx::XVal::Num { lex: "0".into(), typed: false }, formula: Some(xx::XFormula::Plain(render(e))) });
+    }
+    for p in &case.consts {
+        rows.entry(p.0).or_default().push(xx::XCell { col: p.1, explicit: true, style: None, value: xx::XVal::Num { lex: "7".into(), typed: false }, formula: None });
+    }
+    let rows = rows
+        .into_iter()
+        .map(|(r, mut cells)| {
+            cells.sort_by_key(|c| c.col);
+            xx::XRow { r, explicit: true, attrs: false, cells }
+        })
+        .collect();
+    let doc = xx::XlsxDoc { sheets: vec![xx::XSheet { name: "Main".into(), rows, ..Default::default() }], ..Default::default() };
+    doc
+}
+
+pub fn strategy() -> impl Strategy<Value = Case> {
+    case_strategy()
+}
+
+fn oracle(case: &Case) -> Report {
+    let mut rep = Report::new();
+    // ---- xls
+    if !case.wide {
+        let doc = xls_doc(case);
         match crate::props::c02::open_xls(b8::encode(&doc)) {
             Ok(mut wb) => check(&mut wb, &expected(case, true), "xls", &mut rep),
             Err(e) => rep.fail(format!("xls: {e}")),
@@ -172,34 +234,7 @@ fn oracle(case: &Case) -> Report {
     }
     // ---- xlsb
     {
-        let mut rows: BTreeMap<u32, Vec<bb::BbCell>> = BTreeMap::new();
-        for (p, e) in &case.formulas {
-            rows.entry(p.0).or_default().push(bb::BbCell { col: p.1, style: 0, rec: bb::BbRec::FmlaNum(0.0, rgce(e, Biff::B12, case.class_knob)) });
-        }
-        for p in &case.consts {
-            rows.entry(p.0).or_default().push(bb::BbCell { col: p.1, style: 0, rec: bb::BbRec::Real(7.0) });
-        }
-        let rows = rows
-            .into_iter()
-            .map(|(r, mut cells)| {
-                cells.sort_by_key(|c| c.col);
-                bb::BbRow { r, before: vec![], cells }
-            })
-            .collect();
-        let other = |n: &str| bb::BbSheet { name: n.into(), rows: vec![bb::BbRow { r: 0, before: vec![], cells: vec![bb::BbCell { col: 0, style: 0, rec: bb::BbRec::Real(1.0) }] }], ..Default::default() };
-        let name_rgce12 = |k: usize| {
-            let mut v = vec![0x3A];
-            v.extend((k as u16).to_le_bytes());
-            v.extend(0u32.to_le_bytes());
-            v.extend(0u16.to_le_bytes());
-            v
-        };
-        let doc = bb::XlsbDoc {
-            sheets: vec![bb::BbSheet { name: "Main".into(), rows, ..Default::default() }, other("Data"), other("Other"), other("S3")],
-            names: NAMES.iter().enumerate().map(|(k, n)| (n.to_string(), name_rgce12(k))).collect(),
-            xtis: vec![(3, 3), (2, 2), (1, 1), (0, 0)],
-            ..Default::default()
-        };
+        let doc = xlsb_doc(case);
         match crate::props::c03::open_xlsb(bb::encode(&doc)) {
             Ok(mut wb) => check(&mut wb, &expected(case, true), "xlsb", &mut rep),
             Err(e) => rep.fail(format!("xlsb: {e}")),
@@ -210,21 +245,7 @@ fn oracle(case: &Case) -> Report {
     }
     // ---- xlsx and ods store text
     {
-        let mut rows: BTreeMap<u32, Vec<xx::XCell>> = BTreeMap::new();
-        for (p, e) in &case.formulas {
-            rows.entry(p.0).or_default().push(xx::XCell { col: p.1, explicit: true, style: None, value: xx::XVal::Num { lex: "0".into(), typed: false }, formula: Some(xx::XFormula::Plain(render(e))) });
-        }
-        for p in &case.consts {
-            rows.entry(p.0).or_default().push(xx::XCell { col: p.1, explicit: true, style: None, value: xx::XVal::Num { lex: "7".into(), typed: false }, formula: None });
-        }
-        let rows = rows
-            .into_iter()
-            .map(|(r, mut cells)| {
-                cells.sort_by_key(|c| c.col);
-                xx::XRow { r, explicit: true, attrs: false, cells }
-            })
-            .collect();
-        let doc = xx::XlsxDoc { sheets: vec![xx::XSheet { name: "Main".into(), rows, ..Default::default() }], ..Default::default() };
+        let doc = xlsx_doc(case);
         match crate::props::c01::open_xlsx(xx::encode(&doc)) {
             Ok(mut wb) => check(&mut wb, &expected(case, false), "xlsx", &mut rep),
             Err(e) => rep.fail(format!("xlsx: {e}")),
